@@ -5,7 +5,7 @@ from . import core, sketchcheck
 from .sketchgen import Builder, mapspec, STORES, rand_values, spec_list
 from .storegen import Shadow
 from .c06 import expect_decoded, split_kobs
-from .core import f2h
+from .core import nextafter, f2h
 
 TARGETS = STORES + ["low:8", "high:8", "low:256"]
 
@@ -20,6 +20,10 @@ def build(rng, facts, name):
     if rng.random() < 0.2:
         b.kclear("k")
         for v in rand_values(rng, rng.choice([1, 5, 20]), -2, 2): b.kadd("k", v)
+    if rng.random() < 0.25 and kp in ("sparse", "pag") and kn in ("sparse", "pag"):
+        # the first and last buckets the mapping can address (their bounds lie outside [min, max] indexable)
+        fx = facts[spec]
+        for v in rng.sample([nextafter(fx["min"], True), -nextafter(fx["min"], True), fx["min"] * 1.0000001, fx["max"], -fx["max"], nextafter(fx["max"], False)], 3): b.kadd("k", v)
     j0 = b.emit("kobs k")
     def same_bins(a, env, impl):
         # with non-dyadic weights the totals of hash-map stores depend on the iteration order of the float sum: compare bins only
